@@ -1,7 +1,7 @@
 (* C11 - guided remediation only upgrades, and only as far as the policy allows.
    Only statements here; proofs are in Proofs.v. *)
-From Coq Require Import List ZArith NArith Bool Arith.
-From Scalibr Require Import Lib.SortSearch RemedC11.Upgrade RemedC11.Suggest RemedC11.Relax RemedC11.Override RemedC11.Proofs.
+From Coq Require Import List ZArith NArith Bool Arith Permutation.
+From Scalibr Require Import Lib.SortSearch RemedC11.Upgrade RemedC11.Suggest RemedC11.Relax RemedC11.Override RemedC11.RelaxLoop RemedC11.Proofs.
 Import ListNotations.
 
 (* ---- level semantics *)
@@ -152,6 +152,55 @@ Example ex_relax_on_D :
   = Some (Tilde, 5%N).
 Proof. vm_compute. reflexivity. Qed.
 
+(* ---- the outer loop of the relax strategy: relax.patchVulns
+   A replacement is (package, requirement before, relaxed requirement). NpmRelaxer.Relax, the resolver, the
+   matcher and the constraining subgraphs are arbitrary. *)
+
+(* only requirements that a constraining subgraph of one of the vulnerabilities to fix holds responsible
+   are ever replaced, never those of a package configured as none, and always by what Relax returned *)
+Theorem relax_only_touches_responsible_directs : forall relax_req analyse cfg vuln_ids fuel q,
+  In q (xpatches_of (run_relax relax_req analyse cfg vuln_ids fuel)) ->
+  config_get cfg (x_pkg q) <> LNone /\ relax_req (x_pkg q) (x_old q) = Some (x_new q) /\
+  exists ovs vs v, analyse ovs = Some vs /\ In v vs /\ In (xv_id v) vuln_ids /\
+                   In (x_pkg q, x_old q) (xv_directs v).
+Proof. intros. eapply relax_touches_responsible_lemma; eauto. Qed.
+Print Assumptions relax_only_touches_responsible_directs.
+
+(* termination. Measure: for every package p of the finite universe pkgs, hm p r is the position (in p's
+   ascending version list, below bound p) of the highest version matching the requirement r in force;
+   every pass replaces at least one requirement and every replacement moves its hm strictly up, so no
+   (package, position) pair is reached twice and there are at most sum of bound p replacements.
+   Premises: Relax moves hm strictly up within bound (cf. relax_strictly_up), and the requirement found on
+   a root edge is the one in force for that package. *)
+Theorem relax_terminates : forall relax_req analyse cfg vuln_ids (init : pkg -> req)
+                                  (hm : pkg -> req -> nat) (bound : pkg -> nat) (pkgs : list pkg),
+  (forall p r r', relax_req p r = Some r' -> hm p r < hm p r' /\ hm p r' < bound p) ->
+  (forall ovs vs v p r, analyse ovs = Some vs -> In v vs -> In (xv_id v) vuln_ids ->
+                        In (p, r) (xv_directs v) -> r = cur_req init ovs p /\ In p pkgs) ->
+  forall fuel, relax_bound bound pkgs <= fuel ->
+  forall i, run_relax relax_req analyse cfg vuln_ids fuel <> XOutOfFuel i.
+Proof.
+  intros rr an cfg ids init hm bound pkgs H1 H2 fuel Hf i.
+  eapply relax_terminates_lemma; eauto.
+Qed.
+Print Assumptions relax_terminates.
+
+(* non-vacuity: package 1 with requirement 10 is relaxed twice (10 -> 11 -> 12) before the vulnerability
+   9 is gone; package 2 (configured none) is never responsible *)
+Definition xl_relax (p : pkg) (r : req) : option req := if N.ltb r 12 then Some (N.succ r) else None.
+Definition xl_analyse (ovs : list (pkg * req)) : option (list xvuln) :=
+  match last_override ovs 1%N with
+  | Some 12%N => Some []
+  | Some r => Some [ {| xv_id := 9%N; xv_directs := [(1%N, r); (1%N, r)]; xv_reach := [1%N] |} ]
+  | None => Some [ {| xv_id := 9%N; xv_directs := [(1%N, 10%N)]; xv_reach := [1%N] |};
+                   {| xv_id := 8%N; xv_directs := [(2%N, 5%N)]; xv_reach := [2%N] |} ]
+  end.
+
+Example ex_relax_loop :
+  run_relax xl_relax xl_analyse [(2%N, LNone)] [9%N] (relax_bound (fun _ => 3) [1%N])
+  = XOk [[(1%N, 10%N, 11%N)]; [(1%N, 11%N, 12%N)]].
+Proof. vm_compute. reflexivity. Qed.
+
 (* ---- overriding transitive versions (Maven): override.patchVulns
    A patch is (package, version resolved before the iteration, overriding version). The resolver, the
    matcher, IsAffected, Difference, the version lists and the configuration are arbitrary. *)
@@ -170,13 +219,25 @@ Theorem override_none_untouched : forall versions_of rank dif affected analyse c
 Proof. intros. eapply override_within_level_lemma; eauto. Qed.
 Print Assumptions override_none_untouched.
 
+(* the sorted version list does not depend on the sorting algorithm: when the versions parse and are
+   pairwise different in the order, any ascending permutation of them is the list the model computes,
+   which is also Lib.SortSearch's insertion sort. (Go's slices.SortFunc is insertion sort up to 12 elements
+   and an unstable pdqsort above; only "returns a sorted permutation" is assumed of it.) *)
+Theorem sort_unique_on_distinct : forall rank vs, wf_versions rank vs ->
+  (forall s, Permutation s vs -> sasc rank s -> s = sorted_versions rank vs) /\
+  sorted_versions rank vs = isort (zc rank) vs.
+Proof.
+  intros rank vs H. split; [intros s; apply sort_unique_on_distinct_lemma; exact H|apply sorted_versions_isort; exact H].
+Qed.
+Print Assumptions sort_unique_on_distinct.
+
 (* every override is a listed version strictly above the resolved one in the ecosystem order, when
    every package's versions parse and are pairwise different in that order (wf_versions) and resolved
-   versions are listed versions *)
+   versions parse (they need not be listed) *)
 Theorem override_strictly_up : forall versions_of rank dif affected analyse cfg vuln_ids,
   (forall p, wf_versions rank (versions_of p)) ->
   (forall ovs vulns rv p v cl, analyse ovs = Some vulns -> In rv vulns -> In (p, v, cl) (rv_nodes rv) ->
-                               In v (versions_of p)) ->
+                               rank v <> None) ->
   forall fuel q,
   In q (patches_of (run_patch_vulns versions_of rank dif affected analyse cfg vuln_ids fuel)) ->
   In (p_to q) (versions_of (p_pkg q)) /\ rank_lt rank (p_from q) (p_to q) = true.
@@ -202,7 +263,7 @@ Print Assumptions override_terminates.
 Theorem override_within_level_of_original : forall versions_of rank dif affected analyse cfg vuln_ids,
   (forall p, wf_versions rank (versions_of p)) ->
   (forall ovs vulns rv p v cl, analyse ovs = Some vulns -> In rv vulns -> In (p, v, cl) (rv_nodes rv) ->
-                               In v (versions_of p)) ->
+                               rank v <> None) ->
   (forall ovs vulns rv p v cl t, analyse ovs = Some vulns -> In rv vulns -> In (p, v, cl) (rv_nodes rv) ->
                                  last_override ovs p = Some t -> v = t) ->
   (forall ovs vulns rv rv' p v v' cl cl', analyse ovs = Some vulns -> In rv vulns -> In rv' vulns ->
@@ -250,15 +311,12 @@ Proof.
 Qed.
 Print Assumptions override_resolved_version_refuted.
 
-(* getVersionsGreater with a version that is not listed returns every listed version, lower ones too
-   (its semver entry is nil, which compares below everything) *)
-Theorem get_versions_greater_unlisted_refuted :
-  exists vs vk w, ~ In vk vs /\ In w (get_versions_greater nt_rank vs vk) /\ rank_lt nt_rank w vk = true.
-Proof.
-  exists [1%N; 2%N], 5%N, 1%N. split; [|vm_compute; auto].
-  intros [H|[H|[]]]; discriminate.
-Qed.
-Print Assumptions get_versions_greater_unlisted_refuted.
+(* getVersionsGreater with a version that parses but is not listed: only higher versions are offered
+   (the former witness: listed 1 and 2, given 5 -> nothing; given 1.5 between them -> 2) *)
+Example ex_gvg_unlisted :
+  get_versions_greater nt_rank [1%N; 2%N] 5%N = [] /\
+  get_versions_greater (fun v => if N.eqb v 7 then Some 15%Z else Some (10 * Z.of_N v)%Z) [1%N; 2%N] 7%N = [2%N].
+Proof. vm_compute. auto. Qed.
 
 (* non-vacuity: two iterations in a universe that meets every premise *)
 Definition ok_analyse (ovs : list (pkg * ver)) : option (list rvuln) :=
